@@ -148,4 +148,15 @@ META = {
                 "continuation the remaining frames were spliced onto the kept buffer (0dd17a9).",
         "technique": "Coq proof (induction over continuation frames) + extracted-model-vs-engine correspondence with byte comparison of messages",
     },
+    "C13": {
+        "text": "Theorems (Coq, closed) about the session lifecycle model Session/SessLife.v, for every interleaving of begin, end, end_with_error, drop and "
+                "cancelled end with a protocol-abiding peer: the channel carries one begin, at most one end and nothing after; a peer's end is answered in "
+                "the same step unless ours is already out; end()/end_with_error() complete only in the step that consumes the peer's end (or later from the "
+                "stored result) and report the peer's error. The model is run against the real session engine every run. The link clauses are decided by a "
+                "direct oracle on generated session+link scripts against the real engines (no Coq model): partial.",
+        "design_ref": "DESIGN.md section 4, C13",
+        "note": "Trusted: Coq kernel, extraction, scripted-peer harness. Partial: link lifecycle not modelled. Known findings: c13-second-detach, "
+                "c13-detach-kind, c13-peer-detach-error-lost (detach/close crossing a peer detach of the other kind).",
+        "technique": "Coq proof (state invariant over event lists) + extracted-model-vs-engine correspondence; link clauses by direct oracle only (partial)",
+    },
 }
